@@ -50,7 +50,8 @@ package server
 //@     && (cq(c).count > 0 ==> cq(c).head != nil && cq(c).tail == cqn(c, cq(c).count - 1) && cq(c).tail.prev == nil)
 //@     && (forall i int :: 0 <= i && i < cq(c).count ==> cqn(c, i) != nil)
 //@     && (forall i int, j int :: 0 <= i && i < j && j < cq(c).count ==> cqn(c, i) != cqn(c, j))
-//@ define fnotinq(s, f) = forall i int :: 0 <= i && i < cc(s).outFragQueue.count ==> qnth(heap(core.Frag.prev), cc(s).outFragQueue.head, i) != f
+//@ define fnotinq(s, f) = core.fnotin(cc(s).outFragQueue, f)
+//@ define okconn(s) = cc(s).opened && cc(s).loop != nil && cc(s).loop.poller != nil && cc(s).outFragQueue != nil
 //@ define local(r) = r.Type <= codec.UNKNOWN || r.Type >= codec.Sentinel || r.Type == codec.ReqTooLarge || r.Type == codec.ReqWrongArgumentsNumber || r.Type == codec.ReqPing || r.Type == codec.ReqQuit
 
 //@ func listenServer.OnCReact
@@ -60,7 +61,7 @@ package server
 //@   requires forall k int32 :: has(r.Body, k) ==> (r.Body[k] != nil && 0 <= k && k < 16384)
 //@   requires forall s int32 :: (0 <= s && s < 16384 && rs(s) != nil) ==> (rs(s).Master != nil && (forall j int :: 0 <= j && j < len(rs(s).Slaves) ==> rs(s).Slaves[j] != nil))
 //@   requires forall a string :: has(core.EngineGlobal.ProxyPool, a) ==> core.EngineGlobal.ProxyPool[a] != nil
-//@   assume at call conn.EnqueueOutFrag#0 :: fnotinq(sConn, frag)
+//@   assume at call conn.EnqueueOutFrag#0 :: fnotinq(sConns[i], frag) && core.fwf(cc(sConns[i]).outFragQueue)
 //@   ensures[unknown@C17] (r.Type <= codec.UNKNOWN || r.Type >= codec.Sentinel) ==> bytes_eq(out, "-ERR unknown command\r\n") && action == core.None
 //@   ensures[toolarge@C17] r.Type == codec.ReqTooLarge ==> bytes_eq(out, "-ERR req msg length too large\r\n") && action == core.None
 //@   ensures[arity@C17] r.Type == codec.ReqWrongArgumentsNumber ==> bytes_eq(out, "-ERR wrong number of arguments\r\n") && action == core.None
@@ -73,11 +74,21 @@ package server
 //@   ensures[recycle@C03] out != nil ==> heap(core.FragQueue.count) == old(heap(core.FragQueue.count))
 //@   ensures[owner@C03] out == nil ==> (forall k int32 :: has(r.Body, k) ==> r.Body[k].Owner == c)
 //@   loop 0
-//@     modifies core.Frag.Owner, core.Frag.prev, core.Frag.next, core.FragQueue.head, core.FragQueue.tail, core.FragQueue.count, liveSlaves, allmem(string)
+//@     modifies liveSlaves, allmem(string), allmem(*core.Frag), allmem(core.SConn)
 //@     modifies core.Pool.AutoBanFlag, time.Time.wall, time.Time.ext, time.Time.loc, core.Pool.LiftBanOrder, core.activeList.count, core.activeList.front, core.activeList.back, core.poolConn.next, core.poolConn.prev
 //@     invariant r != nil && c != nil && ls.Options != nil && core.EngineGlobal != nil && cq(c) != nil && cqwf(c)
 //@     invariant cq(c).count == old(cq(c).count) && (forall i int :: 0 <= i && i < cq(c).count ==> cqn(c, i) == old(cqn(c, i)) && cqn(c, i) != r)
 //@     invariant forall k int32 :: has(r.Body, k) ==> (r.Body[k] != nil && 0 <= k && k < 16384)
-//@     invariant forall k int32 :: visited(k) ==> r.Body[k].Owner == c
+//@     invariant len(frags) == len(sConns) && fresh(frags) && fresh(sConns)
+//@     invariant forall j int :: 0 <= j && j < len(frags) ==> (frags[j] != nil && sConns[j] != nil && okconn(sConns[j]))
+//@     invariant forall k int32 :: visited(k) ==> (exists j int :: 0 <= j && j < len(frags) && frags[j] == r.Body[k])
 //@     invariant forall s int32 :: (0 <= s && s < 16384 && rs(s) != nil) ==> (rs(s).Master != nil && (forall j int :: 0 <= j && j < len(rs(s).Slaves) ==> rs(s).Slaves[j] != nil))
 //@     invariant forall a string :: has(core.EngineGlobal.ProxyPool, a) ==> core.EngineGlobal.ProxyPool[a] != nil
+//@   loop 1
+//@     modifies core.Frag.Owner, core.Frag.prev, core.Frag.next, core.FragQueue.head, core.FragQueue.tail, core.FragQueue.count
+//@     invariant r != nil && c != nil && cq(c) != nil && cqwf(c) && len(frags) == len(sConns)
+//@     invariant 0 <= rangeindex + 1 && rangeindex + 1 <= len(frags)
+//@     invariant cq(c).count == old(cq(c).count) && (forall i int :: 0 <= i && i < cq(c).count ==> cqn(c, i) == old(cqn(c, i)) && cqn(c, i) != r)
+//@     invariant forall j int :: 0 <= j && j < len(frags) ==> (frags[j] != nil && sConns[j] != nil && okconn(sConns[j]))
+//@     invariant forall j int :: 0 <= j && j <= rangeindex ==> frags[j].Owner == c
+//@     invariant forall k int32 :: has(r.Body, k) ==> (exists j int :: 0 <= j && j < len(frags) && frags[j] == r.Body[k])
